@@ -137,6 +137,7 @@ pub fn finish<Q: CustomQuery + DeserializeOwned>(r: Result<Value, Fail>, c: &Ctx
         "res": res,
         "storage": dump_storage(&c.deps.storage),
         "new_calls": crate::new_calls(),
+        "new_types": crate::new_types(),
     })
 }
 pub fn finish_plain(r: Result<Value, Fail>) -> Value {
